@@ -4,7 +4,7 @@ package proto
 // full size (the caller sees n > len(payload) and drops it) and consumes the WHOLE frame, so that the next
 // ReadFrom starts at the next frame boundary - a frame is never delivered cut and never re-read from the middle.
 //
-//verif:props=C05,C10 unwind=6 bounds="buffered bytes 0..70000 symbolic with a complete frame at the head; caller buffer of 0, 3, 8 or 1600 bytes; no further reads needed"
+//verif:props=C05,C10 unwind=6 timeout=60000 bounds="buffered bytes 0..70000 symbolic with a complete frame at the head; caller buffer of 0, 3, 8 or 1600 bytes; no further reads needed"
 func VerifHarness_C05_readfrom_short_buffer() {
 	b0 := vBigBytes(70000, 24)
 	conn := &vScriptConn{maxReads: 1}
